@@ -46,10 +46,12 @@ pub fn fws(v: &[f64]) -> String { v.iter().map(|x| fw(*x)).collect::<Vec<_>>().j
 /// round trip (when the state can be written as JSON)
 pub fn identity_op<E: Est>(out: &mut Out, e: &mut E, which: usize) {
     let before = words(e);
-    let (name, copy): (&str, E) = match which % 3 {
+    let (name, copy): (&str, E) = match which % 4 {
         0 => ("clone()", e.clone()),
         1 => { let mut t = E::default(); t.add(1.5); t.clone_from(e); ("clone_from()", t) }
-        _ => match e.roundtrip() { Some(r) => ("a serde round trip", r), None => ("clone()", e.clone()) },
+        2 => match e.roundtrip() { Some(r) => ("a serde round trip (JSON)", r), None => ("clone()", e.clone()) },
+        // the binary format carries every state, so a failure to restore is itself a violation
+        _ => match e.roundtrip_bin() { Some(r) => ("a serde round trip (positional binary format)", r), None => { out.x(false, || format!("{}: state {} does not survive a round trip through a positional binary serde format", E::NAME, before)); ("clone()", e.clone()) } },
     };
     out.x(words(&copy) == before, || format!("{}: {} changed the state: {} -> {}", E::NAME, name, before, words(&copy)));
     *e = copy;
@@ -265,7 +267,19 @@ pub fn lopsided_trees(rng: &mut Rng, quick: bool) -> Vec<Tree> {
     v
 }
 
-fn rel_close(a: f64, b: f64, tol: f64) -> bool { (a - b).abs() <= tol * (1.0 + a.abs().max(b.abs())) }
+fn rel_close(a: f64, b: f64, tol: f64) -> bool { a.is_finite() == b.is_finite() && ((a - b).abs() <= tol * (1.0 + a.abs().max(b.abs())) || a == b) }
+/// closeness relative to the larger value or to the natural scale `floor` of the statistic, whichever is larger
+fn scl_close(a: f64, b: f64, tol: f64, floor: f64) -> bool { a.is_finite() == b.is_finite() && ((a - b).abs() <= tol * a.abs().max(b.abs()).max(floor) || a == b) }
+/// natural scale of a statistic for data of magnitude `m`
+fn stat_scale(stat: &str, m: f64) -> f64 {
+    match stat {
+        "mean" | "error" => m,
+        "popvar" | "samplevar" | "varmean" | "cm2" => m * m,
+        "cm3" => m * m * m,
+        "cm4" => m * m * m * m,
+        _ => 1.0,
+    }
+}
 
 /// Counts far beyond anything a loop of `add` reaches: the estimator is merged with a clone of itself until its
 /// count passes 2^55. Every doubling, every accessor of the doubled state, one further `add` and a merge with a short
@@ -279,6 +293,7 @@ pub fn huge_counts<E: Est>(out: &mut Out, data: &[f64], extra: &[f64]) {
     let base = e.accessors();
     let get = |accs: &[Acc], stat: &str| accs.iter().find(|a| a.stat == stat).map(|a| a.val.f());
     let n0 = data.len() as f64;
+    let mag = data.iter().chain(extra.iter()).map(|x| x.abs()).fold(0.0, f64::max);
     let (mean0, popvar0) = (get(&base, "mean"), get(&base, "popvar").or(get(&base, "cm2")));
     let (skew0, kurt0) = (get(&base, "skew").or(get(&base, "sm3")), get(&base, "kurt").or(get(&base, "sm4").map(|x| x - 3.0)));
     // a second estimator over `extra`, doubled in lockstep: merging the two is a merge of two huge chunks with
@@ -287,7 +302,9 @@ pub fn huge_counts<E: Est>(out: &mut Out, data: &[f64], extra: &[f64]) {
     let mut union = E::new(); for x in data.iter().chain(extra.iter()) { union.add(*x) }
     let ubase = union.accessors();
     let mut reps = 1f64;
-    for round in 0..56 {
+    // doublings up to a count of 2^62 (the merge of the two huge chunks below then reaches 2^63 at most)
+    let rounds = 62 - (64 - (data.len().max(extra.len()) as u64 - 1).leading_zeros() as usize).min(8);
+    for round in 0..rounds {
         let c = e.clone();
         let pa = words(&e);
         e.merge(&c);
@@ -296,10 +313,14 @@ pub fn huge_counts<E: Est>(out: &mut Out, data: &[f64], extra: &[f64]) {
         { let c2 = e2.clone(); e2.merge(&c2); }
         {
             let mut u = e.clone(); let pu = words(&u); u.merge(&e2); out.t(E::NAME, "merge", &pu, &words(&e2), &words(&u));
+            if let (Some(la), Some(lb)) = (e.len(), e2.len()) { out.x(u.len() == Some(la + lb), || format!("{}: merging {} and {} observations gives len() = {:?}", E::NAME, la, lb, u.len())); }
             let ua = u.accessors();
+            // (when N times the square of the data magnitude is not representable the stored sums overflow by design)
+            let representable = mag * mag * (n0 + extra.len() as f64) * reps < 1e300;
             for stat in ["mean", "popvar", "cm2", "skew", "kurt", "sm3", "sm4", "cm3", "cm4"] {
+                if !representable && stat != "mean" { continue; }
                 if let (Some(g), Some(w)) = (get(&ua, stat), get(&ubase, stat)) {
-                    if w.is_finite() { out.x(rel_close(g, w, 1e-9), || format!("{}: merge of {:?} x {} with {:?} x {}: {} = {:?}, textbook value {:?}", E::NAME, data, reps, extra, reps, stat, g, w)); }
+                    if w.is_finite() { out.x(scl_close(g, w, 1e-9, stat_scale(stat, mag)), || format!("{}: merge of {:?} x {} with {:?} x {}: {} = {:?}, textbook value {:?}", E::NAME, data, reps, extra, reps, stat, g, w)); }
                 }
             }
         }
@@ -308,7 +329,7 @@ pub fn huge_counts<E: Est>(out: &mut Out, data: &[f64], extra: &[f64]) {
         let tol = 1e-9; // doubling merges of equal halves are exact up to a few ulps per level
         let chk = |out: &mut Out, stat: &str, want: Option<f64>| {
             if let (Some(g), Some(w)) = (get(&accs, stat), want) {
-                if w.is_finite() { out.x(rel_close(g, w, tol), || format!("{}: after {} self-merges of {:?} (count {}), {} = {:?}, textbook value {:?}", E::NAME, round + 1, data, nn, stat, g, w)); }
+                if w.is_finite() { out.x(scl_close(g, w, tol, stat_scale(stat, mag)), || format!("{}: after {} self-merges of {:?} (count {}), {} = {:?}, textbook value {:?}", E::NAME, round + 1, data, nn, stat, g, w)); }
             }
         };
         chk(out, "mean", mean0);
@@ -328,11 +349,18 @@ pub fn huge_counts<E: Est>(out: &mut Out, data: &[f64], extra: &[f64]) {
         if let Some(l) = e.len() { out.x(l as f64 == nn, || format!("{}: len() = {} after {} self-merges of {} observations", E::NAME, l, round + 1, data.len())); }
         // one more observation, and a short chunk merged in from either side
         let mut f = e.clone(); let pre = words(&f); f.add(extra[0]); out.t(E::NAME, "add", &pre, &fw(extra[0]), &words(&f));
-        if let (Some(m0), Some(g)) = (mean0, get(&f.accessors(), "mean")) {
-            if round >= 20 { out.x(rel_close(g, m0, 1e-5), || format!("{}: one observation {:?} added to {} observations with mean {:?} moved the mean to {:?}", E::NAME, extra[0], nn, m0, g)); }
-        }
-        if let (Some(v0), Some(g)) = (popvar0, get(&f.accessors(), "popvar")) {
-            if round >= 20 { out.x(rel_close(g, v0, 1e-4), || format!("{}: one observation {:?} added to {} observations with variance {:?} moved the variance to {:?}", E::NAME, extra[0], nn, v0, g)); }
+        // textbook update of mean and variance by one observation x: mean + (x-mean)/(N+1), (N v + (x-mean)^2 N/(N+1))/(N+1)
+        {
+            let fa = f.accessors();
+            let x = extra[0];
+            if let (Some(m0), Some(g)) = (mean0, get(&fa, "mean")) {
+                let want = m0 + (x - m0) / (nn + 1.0);
+                out.x(scl_close(g, want, 1e-9, mag), || format!("{}: {:?} added to {} observations with mean {:?}: mean {:?}, textbook {:?}", E::NAME, x, nn, m0, g, want));
+            }
+            if let (Some(m0), Some(v0), Some(g)) = (mean0, popvar0, get(&fa, "popvar").or(get(&fa, "cm2"))) {
+                let want = (nn * v0 + (x - m0) * ((x - m0) * (nn / (nn + 1.0)))) / (nn + 1.0);
+                if want.is_finite() { out.x(scl_close(g, want, 1e-9, f64::MIN_POSITIVE), || format!("{}: {:?} added to {} observations with mean {:?} and variance {:?}: variance {:?}, textbook {:?}", E::NAME, x, nn, m0, v0, g, want)); }
+            }
         }
         let mut g = e.clone(); let pg = words(&g); g.merge(&small); out.t(E::NAME, "merge", &pg, &words(&small), &words(&g));
         let mut h = small.clone(); let ph = words(&h); h.merge(&e); out.t(E::NAME, "merge", &ph, &words(&e), &words(&h));
@@ -345,19 +373,35 @@ pub fn huge_counts<E: Est>(out: &mut Out, data: &[f64], extra: &[f64]) {
         { let mut z = e.clone(); z.merge(&E::new()); let mut y = E::default(); y.merge(&e);
           out.x(words(&z) == words(&e) && y.accessors().iter().zip(e.accessors().iter()).all(|(a, b)| a.val.word() == b.val.word()),
                 || format!("{}: merging the empty estimator at count {} changed the state or the statistics", E::NAME, nn)); }
-        if round >= 20 {
+        // a short chunk of ordinary observations cannot move the statistics of 2^20 and more observations by much
+        // (not asserted for the far-outlier bases: there the exact update above is the oracle, and Variance::merge
+        // may overflow in delta^2 * n_a although the merged sum is representable - outside every property's claim)
+        let dmag = data.iter().map(|x| x.abs()).fold(0.0, f64::max);
+        let ordinary = extra.iter().all(|x| x.abs() <= 1e3 * dmag.max(f64::MIN_POSITIVE));
+        if round >= 20 && ordinary {
             for (nm, s) in [("merge(short chunk)", &g), ("short chunk.merge", &h)] {
                 let a = s.accessors();
-                if let (Some(m0), Some(x)) = (mean0, get(&a, "mean")) { out.x(rel_close(x, m0, 1e-5), || format!("{}: {} at count {}: mean {:?}, was {:?}", E::NAME, nm, nn, x, m0)); }
-                if let (Some(v0), Some(x)) = (popvar0, get(&a, "popvar")) { out.x(rel_close(x, v0, 1e-4), || format!("{}: {} at count {}: variance {:?}, was {:?}", E::NAME, nm, nn, x, v0)); }
-                if let (Some(k0), Some(x)) = (kurt0, get(&a, "kurt")) { out.x(rel_close(x, k0, 1e-3), || format!("{}: {} at count {}: kurtosis {:?}, was {:?}", E::NAME, nm, nn, x, k0)); }
-                if let (Some(k0), Some(x)) = (skew0, get(&a, "skew")) { out.x(rel_close(x, k0, 1e-3), || format!("{}: {} at count {}: skewness {:?}, was {:?}", E::NAME, nm, nn, x, k0)); }
+                if let (Some(m0), Some(x)) = (mean0, get(&a, "mean")) { out.x(scl_close(x, m0, 1e-5, mag), || format!("{}: {} at count {}: mean {:?}, was {:?}", E::NAME, nm, nn, x, m0)); }
+                if let (Some(v0), Some(x)) = (popvar0, get(&a, "popvar")) { out.x(scl_close(x, v0, 1e-4, mag * mag), || format!("{}: {} at count {}: variance {:?}, was {:?}", E::NAME, nm, nn, x, v0)); }
+                if let (Some(k0), Some(x)) = (kurt0.filter(|k| k.is_finite()), get(&a, "kurt")) { out.x(rel_close(x, k0, 1e-3), || format!("{}: {} at count {}: kurtosis {:?}, was {:?}", E::NAME, nm, nn, x, k0)); }
+                if let (Some(k0), Some(x)) = (skew0.filter(|k| k.is_finite()), get(&a, "skew")) { out.x(rel_close(x, k0, 1e-3), || format!("{}: {} at count {}: skewness {:?}, was {:?}", E::NAME, nm, nn, x, k0)); }
             }
         }
     }
     out.note(&format!("{}:huge-counts", E::NAME));
 }
 
+/// bases for estimators of order two only: a far outlier added at a huge count, data at the top of C17's range
+pub const HUGE_BASES_VAR: &[(&[f64], &[f64])] = &[
+    (&[1.0, 2.0, 4.0, 8.0], &[2e148]),
+    (&[-3.0, 1.5, 2.0, 7.0, 11.0], &[-1e150]),
+    (&[3e-140, 1e-140, -2e-140], &[1e-145]),
+];
+/// the same at scales where powers of the data are large or tiny (orders up to four stay representable)
+pub const HUGE_BASES_SCALED: &[(&[f64], &[f64])] = &[
+    (&[1e66, 2e66, 4e66, 8e66], &[3e66, 5e66]),
+    (&[-3e-70, 1.5e-70, 2e-70, 7e-70, 11e-70], &[2e-70, 4e-70, 6e-70]),
+];
 pub const HUGE_BASES: &[(&[f64], &[f64])] = &[
     (&[1.0, 2.0, 4.0, 8.0], &[3.0, 5.0]),
     (&[0.0, 0.0, 0.0, 1.0], &[0.25]),
